@@ -242,8 +242,45 @@ fn run_sinc(a: &Args) {
             }
         }
     }
+    // ---- large depths on the grid: worst-case sign pattern for the measured on-grid impulse response
+    let deep: &[usize] = if a.thorough() { &[512, 1024, 2048] } else { &[1024] };
+    for &d in deep { deep_grid(d, &mut rng, &mut st); }
+    st.note("large depths (quick: 1024; thorough: 512, 1024, 2048): the on-grid impulse response of the primed interpolator is measured through interpolate(0) (by the property's linearity the worst full-scale input for the delay claim is the +-1 pattern aligned with its signs), then that pattern, an all-ones, an alternating and a random +-1 history are pushed and interpolate(0) must return the frame `depth` pushes back within 1e-12*peak");
     st.note("oracles (no model involved): every output finite; after reset every output equals that of a fresh zero-padded interpolator driven by the same subsequent operations and is exactly 0 right after the reset; once 2*depth equal frames have been pushed and depth >= 4, every output is within 1% of that frame; out(A+B) = out(A)+out(B) and out(c*A) = c*out(A) within 8e-13*len (rounding) on op-for-op identical histories");
     st.finish();
+}
+
+/// depth `d`, mono f64: `2d` pushes then `interpolate(0.0)` must return the frame pushed `d` pushes before the last one
+/// (what a ratio-1 converter emits) within 1e-12*peak, for the sign pattern that is worst for the measured response
+fn deep_grid(d: usize, rng: &mut Rng, st: &mut Stream) {
+    let n = 2 * d;
+    let zero_ring = vec![vec![0.0f64]; n];
+    // measured on-grid response: prime with zeros, push a unit impulse, h[k] = interpolate(0) after k further zero pushes
+    let mut sinc = new_sinc::<f64>(&zero_ring).expect("even ring");
+    for _ in 0..n { sinc.next_source_frame(0.0); }
+    sinc.next_source_frame(1.0);
+    let mut h = Vec::with_capacity(n);
+    for _ in 0..n { h.push(sinc.interpolate(0.0)); sinc.next_source_frame(0.0); }
+    st.evaluations += 2 * n as u64;
+    if h.iter().all(|v| v.is_finite()) { st.oracle_ok(1); } else { st.oracle_fail("non-finite on-grid impulse response", &format!("sinc depth {} impulse", d), "finite", "non-finite"); }
+    let leak: f64 = h.iter().enumerate().filter(|(k, _)| *k != d - 1).map(|(_, v)| v.abs()).sum();
+    st.note(&format!("depth {}: measured on-grid response: centre {:e}, sum of |off-centre taps| {:e}", d, h[d - 1], leak));
+    // the impulse sits at ring index n-1-k after k pushes; after n pushes ring index i holds push number i
+    let aligned: Vec<f64> = (0..n).map(|i| if h[n - 1 - i] < 0.0 { -1.0 } else { 1.0 }).collect();
+    let ones: Vec<f64> = vec![1.0; n];
+    let alt: Vec<f64> = (0..n).map(|i| if i % 2 == 0 { 1.0 } else { -1.0 }).collect();
+    let rnd: Vec<f64> = (0..n).map(|_| if rng.chance(1, 2) { 1.0 } else { -1.0 }).collect();
+    for (name, xs) in [("aligned", aligned), ("ones", ones), ("alternating", alt), ("random", rnd)] {
+        let mut ops: Vec<Op> = xs.iter().map(|x| Op::Push(vec![*x])).collect();
+        ops.push(Op::Interp(0.0));
+        ops.push(Op::Interp(0.5));
+        let hist = emit::<f64>(&zero_ring, &ops, true, st);
+        st.count(&format!("deep_{}_{}", d, name));
+        let out = hist.outs[0][0];
+        let want = xs[d];                                   // n pushes, delay d: push number n - d
+        if (out - want).abs() <= 1e-12 { st.oracle_ok(1); }
+        else { st.oracle_fail(&format!("depth {}: on the grid the output is not the frame `depth` pushes back within 1e-12*peak ({} +-1 history of {} pushes, then interpolate(0))", d, name, n), &hist.op_line, &format!("{:e}", want), &format!("{:e} (error {:e})", out, (out - want).abs())); }
+    }
 }
 
 // ---------------------------------------------------------------- through the converter
@@ -316,6 +353,160 @@ fn run_sconv(a: &Args) {
             }
         }
     }
+    // ---- integer sample formats: not modelled (the Lean model covers f64 frames), oracle-checked only
+    let ireps = if a.thorough() { 12 } else { 2 };
+    for _ in 0..ireps {
+        for depth in [1usize, 2, 3, 4, 5, 8, 16] {
+            int_all(depth, &mut rng, &mut st);
+        }
+    }
+    if a.thorough() { for depth in [32usize, 64] { int_all(depth, &mut rng, &mut st); } }
+    // probe (recorded, not alarmed; outside the in-range domain the oracles stay in): i64 samples AT the rails
+    {
+        let src = vec![i64::MAX, i64::MAX, i64::MIN, i64::MAX];
+        let r = guarded(|| {
+            let sinc = Sinc::new(ring_buffer::Fixed::from(vec![0i64; 8]));
+            let mut conv = Converter::scale_playback_hz(signal::from_iter(src.clone().into_iter()), sinc, 1.0);
+            (0..10).map(|_| conv.next()).collect::<Vec<i64>>()
+        });
+        let wrapped = match &r { None => true, Some(o) => (0..4).any(|j| (o[j + 4] as i128 - src[j] as i128).abs() > (1 << 24)) };
+        st.count(if wrapped { "probe_i64_rail_overflow_reproduced" } else { "probe_i64_rail_overflow_not_reproduced" });
+        st.note(&format!("probe: i64 frames at i64::MAX/MIN, depth 4, ratio 1: {} (the residual off-centre taps, ~1e-16 of full scale = hundreds of LSB for i64, are added in i64 and overflow at the rails: wraps in release, panics with overflow checks); observed {:?}", if wrapped { "integer accumulation overflowed" } else { "no overflow" }, r));
+    }
+    st.note("integer sample formats (i16, I24, i32, u32, i64; mono and stereo; 32/64-bit values with more than 24 significant bits) are NOT modelled in Lean; they are oracle-checked only (no request lines): at ratio exactly 1 from equilibrium padding (i64 values kept 2^24 LSB away from the rails, see the probe note) output j is within 1e-12*peak (peak amplitude in LSB from equilibrium, i.e. exactly for formats of at most 32 bits) of source[j-depth]; on op-for-op identical histories out(A+B) = out(A)+out(B) and out(2A) = 2 out(A) within one LSB per tap and run (plus the f64 conversion error 2^12 LSB per tap for i64), amplitudes at most 1/16 of full scale so that no integer addition overflows; a constant of 1/4 full scale is reproduced within 1% + one LSB per tap once 2*depth frames are buffered, depth >= 4");
     st.note("oracles (no model involved): every output finite; at ratio exactly 1 from zero padding output j is within 1e-12*peak of source[j-depth] (0 for j < depth and past the end) for every depth 1..64");
     st.finish();
+}
+
+// ---------------------------------------------------------------- integer sample formats (oracle only)
+
+trait IFr: Frame + Copy + PartialEq + 'static {
+    const NAME: &'static str;
+    const LO: i128;
+    const HI: i128;
+    /// error of one tap in LSB: < 1 for the truncating conversion; i64 adds the f64 roundings of the tap
+    const TAP: i128;
+    /// distance kept from the rails in the on-grid test: 0 except for i64, where the residual off-centre taps
+    /// (~1e-16 of full scale = hundreds of LSB) make the integer accumulation overflow at the very rails - see the probe
+    const RAIL_MARGIN: i128 = 0;
+    fn mk(v: &[i128]) -> Self;
+    fn vals(&self) -> Vec<i128>;
+}
+macro_rules! ifr {
+    ($T:ty, $name:expr, $tap:expr, $margin:expr) => {
+        impl IFr for $T {
+            const NAME: &'static str = $name; const LO: i128 = <$T>::MIN as i128; const HI: i128 = <$T>::MAX as i128; const TAP: i128 = $tap; const RAIL_MARGIN: i128 = $margin;
+            fn mk(v: &[i128]) -> Self { v[0] as $T }
+            fn vals(&self) -> Vec<i128> { vec![*self as i128] }
+        }
+        impl IFr for [$T; 2] {
+            const NAME: &'static str = $name; const LO: i128 = <$T>::MIN as i128; const HI: i128 = <$T>::MAX as i128; const TAP: i128 = $tap; const RAIL_MARGIN: i128 = $margin;
+            fn mk(v: &[i128]) -> Self { [v[0] as $T, v[1] as $T] }
+            fn vals(&self) -> Vec<i128> { vec![self[0] as i128, self[1] as i128] }
+        }
+    };
+}
+ifr!(i16, "i16", 1, 0);
+ifr!(i32, "i32", 1, 0);
+ifr!(u32, "u32", 1, 0);
+ifr!(i64, "i64", 4096, 1 << 24);
+use dasp_sample::I24;
+impl IFr for I24 {
+    const NAME: &'static str = "i24"; const LO: i128 = -8_388_608; const HI: i128 = 8_388_607; const TAP: i128 = 1;
+    fn mk(v: &[i128]) -> Self { I24::new(v[0] as i32).expect("in range") }
+    fn vals(&self) -> Vec<i128> { vec![self.inner() as i128] }
+}
+impl IFr for [I24; 2] {
+    const NAME: &'static str = "i24"; const LO: i128 = -8_388_608; const HI: i128 = 8_388_607; const TAP: i128 = 1;
+    fn mk(v: &[i128]) -> Self { [I24::new(v[0] as i32).expect("in range"), I24::new(v[1] as i32).expect("in range")] }
+    fn vals(&self) -> Vec<i128> { vec![self[0].inner() as i128, self[1].inner() as i128] }
+}
+
+fn int_all(depth: usize, rng: &mut Rng, st: &mut Stream) {
+    int_fmt::<i16>(depth, rng, st); int_fmt::<[i16; 2]>(depth, rng, st);
+    int_fmt::<I24>(depth, rng, st); int_fmt::<[I24; 2]>(depth, rng, st);
+    int_fmt::<i32>(depth, rng, st); int_fmt::<[i32; 2]>(depth, rng, st);
+    int_fmt::<u32>(depth, rng, st); int_fmt::<[u32; 2]>(depth, rng, st);
+    int_fmt::<i64>(depth, rng, st); int_fmt::<[i64; 2]>(depth, rng, st);
+}
+
+fn show_int_frames(fs: &[Vec<i128>]) -> String {
+    fs.iter().map(|f| f.iter().map(|v| v.to_string()).collect::<Vec<_>>().join(",")).collect::<Vec<_>>().join(" ")
+}
+
+fn int_fmt<F: IFr>(depth: usize, rng: &mut Rng, st: &mut Stream)
+where F::Sample: dasp_sample::Duplex<f64> {
+    let ch = F::CHANNELS; let n = 2 * depth;
+    let mid = (F::LO + F::HI + 1) / 2; let half = F::HI - mid;
+    st.count(&format!("int_{}x{}", F::NAME, ch));
+    // ---- (1) ratio exactly 1 through the Converter, full-range values (more than 24 significant bits for 32/64-bit formats)
+    {
+        let mode = rng.below(3);
+        let len = 1 + rng.usize_below(24);
+        let src: Vec<Vec<i128>> = (0..len).map(|i| (0..ch).map(|k| match mode {
+            0 => rng.range_i128(F::LO, F::HI),
+            1 => *rng.pick(&[F::HI, F::LO, F::HI - 3, F::LO + 3, mid + 1, mid - 1, mid + half / 3, mid - half / 7 * 5, mid + 1_000_000_007 % (half + 1), mid - 16_777_217 % (half + 1)]),
+            _ => mid + (if k == 1 { -1 } else { 1 }) * (((i as i128 + 1) * 1_000_000_007) % (half + 1)),
+        }.max(F::LO + F::RAIL_MARGIN).min(F::HI - F::RAIL_MARGIN)).collect()).collect();
+        let case = format!("sinc in a Converter at ratio 1, {} x{} frames, depth {}, equilibrium padding, source: {}", F::NAME, ch, depth, show_int_frames(&src));
+        let frames: Vec<F> = src.iter().map(|f| F::mk(f)).collect();
+        let sinc = Sinc::new(ring_buffer::Fixed::from(vec![F::EQUILIBRIUM; n]));
+        let mut conv = Converter::scale_playback_hz(signal::from_iter(frames.into_iter()), sinc, 1.0);
+        let peak = src.iter().flat_map(|f| f.iter()).map(|v| (v - mid).abs()).max().unwrap_or(0) as f64;
+        let eqv = F::EQUILIBRIUM.vals();
+        for j in 0..len + depth + 2 {
+            let out = conv.next().vals();
+            let want: Vec<i128> = if j >= depth && j - depth < len { src[j - depth].clone() } else { eqv.clone() };
+            let ok = (0..ch).all(|k| ((out[k] - want[k]).abs() as f64) <= 1e-12 * peak);
+            if ok { st.oracle_ok(1); } else { st.oracle_fail(&format!("ratio 1, depth {}: output {} is not source[{}-depth] within 1e-12*peak", depth, j, j), &case, &format!("{:?}", want), &format!("{:?}", out)); }
+            st.evaluations += 1;
+        }
+    }
+    // ---- (2) superposition and scaling on op-for-op identical histories (direct Interpolator calls)
+    {
+        let len = 10 + rng.usize_below(20);
+        let amp = half / 16;
+        let skeleton: Vec<bool> = (0..len).map(|_| rng.chance(3, 5)).collect();
+        let xs: Vec<f64> = (0..len).map(|_| gen_x(rng)).collect();
+        let fa: Vec<Vec<i128>> = (0..len + n).map(|_| (0..ch).map(|_| rng.range_i128(-amp, amp)).collect()).collect();
+        let fb: Vec<Vec<i128>> = (0..len + n).map(|_| (0..ch).map(|_| rng.range_i128(-amp, amp)).collect()).collect();
+        let run = |f: &dyn Fn(usize, usize) -> i128| -> Vec<Vec<i128>> {
+            let ring: Vec<F> = (0..n).map(|i| F::mk(&(0..ch).map(|k| mid + f(i, k)).collect::<Vec<_>>())).collect();
+            let mut s = Sinc::new(ring_buffer::Fixed::from(ring));
+            let mut outs = Vec::new();
+            for j in 0..len {
+                if skeleton[j] { s.next_source_frame(F::mk(&(0..ch).map(|k| mid + f(n + j, k)).collect::<Vec<_>>())); }
+                else { outs.push(s.interpolate(xs[j]).vals().iter().map(|v| v - mid).collect()); }
+            }
+            outs
+        };
+        let oa = run(&|i, k| fa[i][k]);
+        let ob = run(&|i, k| fb[i][k]);
+        let os = run(&|i, k| fa[i][k] + fb[i][k]);
+        let o2 = run(&|i, k| 2 * fa[i][k]);
+        st.evaluations += 4 * len as u64;
+        let tol = 3 * n as i128 * F::TAP + 2;
+        let case = format!("sinc {} x{} depth {}: histories A, B, A+B, 2A (amplitudes from equilibrium) over ring+pushes A = {} | B = {} | skeleton (push=1) {} | x = {:?}", F::NAME, ch, depth, show_int_frames(&fa), show_int_frames(&fb), skeleton.iter().map(|b| if *b { '1' } else { '0' }).collect::<String>(), xs);
+        for j in 0..oa.len() {
+            for k in 0..ch {
+                if (os[j][k] - (oa[j][k] + ob[j][k])).abs() <= tol { st.oracle_ok(1); }
+                else { st.oracle_fail(&format!("superposition beyond one LSB per tap (interpolation {})", j), &case, &format!("{}", oa[j][k] + ob[j][k]), &format!("{}", os[j][k])); }
+                if (o2[j][k] - 2 * oa[j][k]).abs() <= tol { st.oracle_ok(1); }
+                else { st.oracle_fail(&format!("scaling by 2 beyond one LSB per tap (interpolation {})", j), &case, &format!("{}", 2 * oa[j][k]), &format!("{}", o2[j][k])); }
+            }
+        }
+    }
+    // ---- (3) constant input once the buffer is primed, depth >= 4
+    if depth >= 4 {
+        let c: Vec<i128> = (0..ch).map(|k| if k == 1 { -(half / 4) } else { half / 4 + 12345 % (half / 8 + 1) }).collect();
+        let mut s = Sinc::new(ring_buffer::Fixed::from(vec![F::EQUILIBRIUM; n]));
+        for _ in 0..n + 1 { s.next_source_frame(F::mk(&c.iter().map(|v| mid + v).collect::<Vec<_>>())); }
+        for _ in 0..8 {
+            let x = gen_x(rng);
+            let out: Vec<i128> = s.interpolate(x).vals().iter().map(|v| v - mid).collect();
+            st.evaluations += 1;
+            let ok = (0..ch).all(|k| ((out[k] - c[k]).abs() as f64) <= 0.01 * (c[k].abs() as f64) + (n as i128 * F::TAP) as f64);
+            if ok { st.oracle_ok(1); } else { st.oracle_fail("constant input not reproduced within 1% + one LSB per tap (buffer primed, depth >= 4)", &format!("sinc {} x{} depth {}: {} pushes of amplitude {:?}, interpolate({:e})", F::NAME, ch, depth, n + 1, c, x), &format!("{:?}", c), &format!("{:?}", out)); }
+        }
+    }
 }
